@@ -146,7 +146,7 @@ def check_bank(ctx, pid="C21"):
                     rp_tf = mm["t"]
                     ctx.check(o.ctor[3][0][1] == pat("range(self.reads_ports)"), f"{pid}.port-count", o.site, f"MemoryBank.read_ports[{cn}]", found=tstr(o.ctor[3][0][1]), required="one read port per read method pair")
         if wports is None or rports is None:
-            raise AnalysisError(pid, comp.site, f"MemoryBank[{cn}]: memory ports not found")
+            raise AnalysisError(pid, comp.site, f"MemoryBank[{cn}]: memory ports not found", missing=f"MemoryBank[{cn}]: memory ports not found")
         want_tf = bool(transp) or bool(ror)
         is_all = rp_tf == wports
         is_none = rp_tf == ("list",)
